@@ -564,17 +564,20 @@ Qed.
 Lemma pose_surj (p : vec3 * quat) : p = (fst p, snd p).
 Proof. now destruct p. Qed.
 
+Lemma apply_inv_cancel_pose T P : qnorm2 (rq T) == 1 -> pose_eq (apply_pose T (apply_pose (inv T) P)) P.
+Proof. destruct P as [p o]. intros H. exact (apply_inv_cancel T p o H). Qed.
+
 Lemma sensor_frame_roundtrip ego cs src P :
   qnorm2 (e_rot ego) == 1 -> qnorm2 (cs_rot cs) == 1 ->
   pose_eq (apply_pose (ego2map_of ego) (apply_pose (sensor2ego_of cs src) (to_sensor_frame ego cs P))) P.
 Proof.
   intros He Hc.
-  set (X := apply_pose (inv (ego2map_of ego)) P).
-  eapply pose_eq_trans.
-  { apply apply_pose_pose_eq. apply apply_pose_pose_eq. apply (to_sensor_frame_spec ego cs src). }
-  fold X. eapply pose_eq_trans.
-  { apply apply_pose_pose_eq. rewrite (pose_surj X). apply (apply_inv_cancel (sensor2ego_of cs src)). exact Hc. }
-  rewrite <- (pose_surj X). unfold X. rewrite (pose_surj P). apply (apply_inv_cancel (ego2map_of ego)). exact He.
+  assert (S1 : pose_eq (apply_pose (sensor2ego_of cs src) (to_sensor_frame ego cs P))
+                       (apply_pose (inv (ego2map_of ego)) P)).
+  { eapply pose_eq_trans; [apply apply_pose_pose_eq, (to_sensor_frame_spec ego cs src)|].
+    apply apply_inv_cancel_pose. exact Hc. }
+  eapply pose_eq_trans; [apply apply_pose_pose_eq, S1|].
+  apply apply_inv_cancel_pose. exact He.
 Qed.
 
 Lemma ego_frame_roundtrip ego cs P :
@@ -584,7 +587,7 @@ Proof.
   intros He Hid. eapply pose_eq_trans.
   { apply apply_pose_pose_eq. eapply pose_eq_trans; [apply (to_sensor_frame_spec ego cs "")|].
     apply identity_calibration_noop. exact Hid. }
-  rewrite (pose_surj P). apply (apply_inv_cancel (ego2map_of ego)). exact He.
+  apply apply_inv_cancel_pose. exact He.
 Qed.
 
 Lemma nth_error_same_length {A B} (l : list A) (l' : list B) j x :
@@ -642,3 +645,210 @@ Proof.
   - intros src. apply sensor_frame_roundtrip; [apply Hue|apply Huc]; assumption.
   - intros Hid. apply ego_frame_roundtrip; [apply Hue; assumption|assumption].
 Qed.
+
+(* ------------------------------------------------------------------------------------------ *)
+(* tracking history                                                                             *)
+(* ------------------------------------------------------------------------------------------ *)
+Open Scope Z_scope.
+
+(* hs is what one meets walking `prev` from a: prev(a), prev(prev(a)), ... *)
+Inductive prev_walk (d : dataset) : annotation -> list annotation -> Prop :=
+| pw_nil a : prev_walk d a []
+| pw_cons a b l : a_prev a <> "" -> In b (anns d) -> a_token b = a_prev a -> prev_walk d b l -> prev_walk d a (b :: l).
+
+(* the timestamp of the sample an annotation belongs to *)
+Definition ann_time (d : dataset) (a : annotation) (t : Z) : Prop :=
+  exists sa, get_sample d (a_sample a) = Ok sa /\ s_timestamp sa = t.
+
+(* why a walk that ended at [lst] did not go on: no `prev`, or the next one is 3.15 s or more back *)
+Definition walk_stops (d : dataset) (t0 : Z) (lst : annotation) : Prop :=
+  a_prev lst = "" \/
+  exists b tb, In b (anns d) /\ a_token b = a_prev lst /\ ann_time d b tb /\ t0 - tb >= window_us.
+
+Lemma ann_time_fun d a t t' : ann_time d a t -> ann_time d a t' -> t = t'.
+Proof. intros (s & Hs & <-) (s' & Hs' & <-). congruence. Qed.
+
+Lemma sample_time_ann_time d a t : sample_time d (a_sample a) = Ok t <-> ann_time d a t.
+Proof.
+  unfold sample_time, ann_time. split.
+  - intros H. binv H. inversion H; subst. eauto.
+  - intros (sa & Hs & <-). rewrite Hs. reflexivity.
+Qed.
+
+Lemma prev_ok_step d cur nxt tc :
+  prev_ok d cur = true -> a_prev cur <> "" -> get_ann d (a_prev cur) = Ok nxt -> ann_time d cur tc ->
+  exists tn, ann_time d nxt tn /\ tn < tc /\ a_instance nxt = a_instance cur.
+Proof.
+  unfold prev_ok. intros H Hne Hg (sa & Hsa & Ht). apply String.eqb_neq in Hne. rewrite Hne in H. simpl in H.
+  unfold get_ann, get in Hg. destruct (get_last a_token (anns d) (a_prev cur)) as [b|]; [|discriminate].
+  inversion Hg; subst b. unfold get_sample, get in Hsa.
+  destruct (get_last s_token (samples d) (a_sample cur)) as [sa'|]; [|discriminate]. inversion Hsa; subst sa'.
+  apply andb_true_iff in H. destruct H as [Hi H]. apply String.eqb_eq in Hi.
+  destruct (get_last s_token (samples d) (a_sample nxt)) as [sb|] eqn:Eb; [|discriminate].
+  apply Z.ltb_lt in H. exists (s_timestamp sb). split; [|split; [lia|assumption]].
+  exists sb. split; [|reflexivity]. unfold get_sample, get. now rewrite Eb.
+Qed.
+
+Section Iterate.
+  Variable d : dataset.
+  Variable t0 : Z.
+  Variable itok : string.
+  Hypothesis Hprev : forall a, In a (anns d) -> prev_ok d a = true.
+
+  (* once an annotation is 3.15 s or more back, nothing further is collected *)
+  Lemma iterate_beyond : forall fuel cur n hs tc,
+    In cur (anns d) -> ann_time d cur tc -> t0 - tc >= window_us ->
+    iterate fuel d t0 cur n = Ok hs -> hs = [].
+  Proof.
+    intros [|fuel] cur n hs tc Hin Ht Hge; cbn [iterate]; [discriminate|].
+    destruct (Nat.leb max_history n); [intros H; inversion H; reflexivity|].
+    destruct (String.eqb_spec (a_prev cur) "") as [Hp|Hp]; [intros H; inversion H; reflexivity|].
+    intros H. binv H. rename x into nxt, x0 into t.
+    destruct (prev_ok_step d cur nxt tc (Hprev _ Hin) Hp Hx Ht) as (tn & Htn & Hlt & _).
+    apply sample_time_ann_time in Hx0. rewrite (ann_time_fun _ _ _ _ Hx0 Htn) in H.
+    unfold window_us in *.
+    destruct (Z.ltb_spec (Z.abs (tn - t0)) 3150000); [lia|].
+    destruct (Z.eqb_spec (Z.abs (tn - t0)) 3150000); [lia|]. inversion H; reflexivity.
+  Qed.
+
+  Lemma last_cons {A} (x : A) l dflt : last (x :: l) dflt = last l x.
+  Proof.
+    revert x dflt; induction l as [|y l IH]; intros x dflt; [reflexivity|].
+    change (last (x :: y :: l) dflt) with (last (y :: l) dflt). now rewrite (IH y dflt), (IH y x).
+  Qed.
+
+  Lemma iterate_spec : forall fuel cur n hs tc,
+    In cur (anns d) -> a_instance cur = itok -> ann_time d cur tc -> tc <= t0 -> (n <= max_history)%nat ->
+    iterate fuel d t0 cur n = Ok hs ->
+    prev_walk d cur hs /\
+    Forall (fun h => In h (anns d) /\ a_instance h = itok /\ exists th, ann_time d h th /\ 0 < t0 - th < window_us) hs /\
+    ((n + List.length hs)%nat = max_history \/ walk_stops d t0 (last hs cur)).
+  Proof.
+    induction fuel as [|fuel IH]; intros cur n hs tc Hin Hi Ht Hle Hn; cbn [iterate]; [discriminate|].
+    destruct (Nat.leb_spec max_history n) as [Hmx|Hmx].
+    { intros H; injection H as <-. split; [constructor|]. split; [constructor|]. left. simpl. lia. }
+    destruct (String.eqb_spec (a_prev cur) "") as [Hp|Hp].
+    { intros H; injection H as <-. split; [constructor|]. split; [constructor|]. right. simpl. now left. }
+    intros H. binv H. rename x into nxt, x0 into t.
+    destruct (prev_ok_step d cur nxt tc (Hprev _ Hin) Hp Hx Ht) as (tn & Htn & Hlt & Hinst).
+    apply sample_time_ann_time in Hx0. rewrite (ann_time_fun _ _ _ _ Hx0 Htn) in H. clear Hx0 t.
+    pose proof (get_ok _ _ _ _ Hx) as [Hin' Htok].
+    unfold window_us in *.
+    destruct (Z.ltb_spec (Z.abs (tn - t0)) 3150000).
+    - binv H. injection H as <-. rename x into rest.
+      destruct (IH nxt (S n) rest tn Hin' (eq_trans Hinst Hi) Htn ltac:(lia) ltac:(lia) Hx0) as (W & F & M).
+      split; [constructor; assumption|]. split.
+      + constructor; [|assumption]. split; [assumption|]. split; [congruence|]. exists tn. split; [assumption|lia].
+      + rewrite last_cons. simpl. destruct M as [M|M]; [left; lia|right; assumption].
+    - assert (Hstop : walk_stops d t0 cur).
+      { right. exists nxt, tn. repeat (split; [assumption|]). unfold window_us. lia. }
+      destruct (Z.eqb_spec (Z.abs (tn - t0)) 3150000).
+      + apply (iterate_beyond fuel nxt n hs tn Hin' Htn) in H; [|unfold window_us; lia]. subst hs.
+        split; [constructor|]. split; [constructor|]. right. exact Hstop.
+      + injection H as <-. split; [constructor|]. split; [constructor|]. right. exact Hstop.
+  Qed.
+End Iterate.
+
+Lemma find_pair_acc l stok itok : forall acc,
+  (forall b, In b l -> ~ (a_sample b = stok /\ a_instance b = itok)) -> find_pair l stok itok acc = acc.
+Proof.
+  induction l as [|b l IH]; simpl; intros acc H; [reflexivity|].
+  rewrite IH by (intros; apply H; auto).
+  destruct (String.eqb_spec (a_sample b) stok); [|reflexivity].
+  destruct (String.eqb_spec (a_instance b) itok); [|reflexivity].
+  exfalso. apply (H b); auto.
+Qed.
+
+Lemma find_pair_unique l a : forall acc,
+  pairs_unique l = true -> In a l -> find_pair l (a_sample a) (a_instance a) acc = Some a.
+Proof.
+  induction l as [|b l IH]; simpl; intros acc Hu Hin; [contradiction|].
+  apply andb_true_iff in Hu. destruct Hu as [Hn Hu]. destruct Hin as [->|Hin].
+  - rewrite !String.eqb_refl. simpl. apply find_pair_acc. intros b Hb [E1 E2].
+    apply negb_true_iff in Hn. assert (existsb (fun b0 => String.eqb (a_sample b0) (a_sample a) && String.eqb (a_instance b0) (a_instance a)) l = true); [|congruence].
+    apply existsb_exists. exists b. split; [assumption|]. rewrite E1, E2, !String.eqb_refl. reflexivity.
+  - apply IH; assumption.
+Qed.
+
+Lemma unique_tokens_parts d :
+  unique_tokens d = true ->
+  NoDup (map s_token (samples d)) /\ NoDup (map sd_token (sample_datas d)) /\ NoDup (map e_token (ego_poses d)) /\
+  NoDup (map cs_token (calibs d)) /\ NoDup (map sn_token (sensors d)) /\ NoDup (map a_token (anns d)) /\
+  NoDup (map i_token (instances d)) /\ NoDup (map c_token (categories d)) /\ NoDup (map at_token (attributes d)) /\
+  NoDup (map v_token (visibilities d)).
+Proof.
+  unfold unique_tokens. intros H.
+  repeat (apply andb_true_iff in H; let H' := fresh "U" in destruct H as [H H']; apply nodup_str_NoDup in H').
+  apply nodup_str_NoDup in H. repeat split; assumption.
+Qed.
+
+Lemma annotations_of_in d s a j :
+  nth_error (annotations_of d s) j = Some a -> In a (anns d) /\ a_sample a = s_token s.
+Proof.
+  intros H. apply nth_error_In in H. unfold annotations_of in H. apply filter_In in H.
+  destruct H as [H1 H2]. apply String.eqb_eq in H2. auto.
+Qed.
+
+Theorem tracking_history_is_prev_chain d fid merge fs :
+  wf d = true -> load d Tracking fid merge = Ok fs ->
+  forall n s f, nth_error (samples d) n = Some s -> nth_error fs n = Some f ->
+  forall j a o, nth_error (annotations_of d s) j = Some a -> nth_error (f_objects f) j = Some o ->
+  exists hs,
+    o_history o = Some (map past_of hs) /\
+    prev_walk d a hs /\
+    (List.length hs <= max_history)%nat /\
+    Forall (fun h => In h (anns d) /\ a_instance h = a_instance a /\
+                     exists th, ann_time d h th /\ 0 < s_timestamp s - th < window_us) hs /\
+    (List.length hs = max_history \/ walk_stops d (s_timestamp s) (last hs a)).
+Proof.
+  intros Hwf H n s f Hs Hf j a o Ha Ho. destruct (load_frame _ _ _ _ _ H) as (Hl & ix & Hix & Hn).
+  destruct (Hn n s f Hs Hf) as (_ & _ & sd & md & _ & _ & _ & Hobj).
+  destruct (Hobj j a o Ha Ho) as (cname & _ & Hm). apply make_object_ok in Hm.
+  destruct Hm as (_ & _ & _ & _ & _ & _ & _ & _ & _ & _ & _ & (hs & Hpast & Hhist)).
+  exists hs. split; [assumption|].
+  destruct (wf_parts _ Hwf) as (Huniq & _ & _ & _ & _ & Hpairs & Hprev).
+  destruct (unique_tokens_parts _ Huniq) as (Us & _ & _ & _ & _ & Ua & _).
+  destruct (annotations_of_in _ _ _ _ Ha) as [Hin Hsamp].
+  rewrite forallb_forall in Hprev.
+  unfold past_annotations in Hpast. binv Hpast. rename x into start, x0 into t0.
+  assert (start = a).
+  { unfold start_annotation in Hx. rewrite <- Hsamp in Hx. rewrite (find_pair_unique _ a None Hpairs Hin) in Hx.
+    unfold get_ann in Hx. rewrite (get_unique a_token _ _ Ua Hin) in Hx. now inversion Hx. }
+  subst start.
+  assert (t0 = s_timestamp s).
+  { unfold sample_time in Hx0. rewrite Hsamp in Hx0. unfold get_sample in Hx0.
+    rewrite (get_unique s_token _ _ Us (nth_error_In _ _ Hs)) in Hx0. simpl in Hx0. now inversion Hx0. }
+  subst t0.
+  assert (Hat : ann_time d a (s_timestamp s)).
+  { exists s. split; [|reflexivity]. rewrite Hsamp. unfold get_sample. apply get_unique; [assumption|]. eapply nth_error_In; eassumption. }
+  destruct (iterate_spec d (s_timestamp s) (a_instance a) Hprev _ a 0%nat hs (s_timestamp s) Hin eq_refl Hat ltac:(lia) ltac:(unfold max_history; lia) Hpast)
+    as (W & F & M).
+  split; [assumption|]. split.
+  { destruct M as [M|M]; [simpl in M; lia|].
+    (* bounded by the loop test in any case *)
+    clear - Hpast. unfold iterate_fuel in Hpast.
+    assert (G : forall fuel cur n l, iterate fuel d (s_timestamp s) cur n = Ok l -> (n <= max_history -> n + List.length l <= max_history)%nat).
+    { induction fuel as [|fuel IH]; intros cur n l; cbn [iterate]; [discriminate|].
+      destruct (Nat.leb_spec max_history n) as [Hmx|Hmx]; [intros E; inversion E; simpl; lia|].
+      destruct (String.eqb (a_prev cur) ""); [intros E; inversion E; simpl; lia|].
+      intros E. binv E.
+      destruct (Z.ltb _ _).
+      - binv E. inversion E; subst. intros _. specialize (IH _ _ _ Hx1). simpl. lia.
+      - destruct (Z.eqb _ _); [apply (IH _ _ _ E)|inversion E; simpl; lia]. }
+    specialize (G _ _ _ _ Hpast). simpl in G. apply G. unfold max_history. lia. }
+  split; [assumption|]. destruct M as [M|M]; [left; exact M|right; exact M].
+Qed.
+
+Theorem history_only_for_tracking d tk fid merge fs :
+  load d tk fid merge = Ok fs -> tk <> Tracking ->
+  forall n s f, nth_error (samples d) n = Some s -> nth_error fs n = Some f ->
+  forall j a o, nth_error (annotations_of d s) j = Some a -> nth_error (f_objects f) j = Some o ->
+    o_history o = None.
+Proof.
+  intros H Htk n s f Hs Hf j a o Ha Ho. destruct (load_frame _ _ _ _ _ H) as (Hl & ix & Hix & Hn).
+  destruct (Hn n s f Hs Hf) as (_ & _ & sd & md & _ & _ & _ & Hobj).
+  destruct (Hobj j a o Ha Ho) as (cname & _ & Hm). apply make_object_ok in Hm.
+  destruct Hm as (_ & _ & _ & _ & _ & _ & _ & _ & _ & _ & _ & Hh).
+  destruct tk; [assumption|contradiction|assumption].
+Qed.
+Close Scope Z_scope.
